@@ -17,10 +17,12 @@ import (
 // "nested": the outer syncer O buffers in front of the inner syncer I (O.WS = I), I over the sink;
 //           I is also written to directly.
 //
-// Buffers are far larger than anything a history writes, so a syncer hands bytes on only
-// in Sync and Stop. Each instance is stopped at most once (what a second Stop does is a
-// recorded finding of the single-instance part) and Sync still flushes after Stop.
-// Oracle after every operation: each sink holds exactly the bytes the reference says, in order.
+// Buffers are far larger than anything a history writes, so nothing forces bytes out before a
+// Sync or Stop. Each instance is stopped at most once (what a second Stop does is a recorded
+// finding of the single-instance part). Oracle after every operation, per sink: whole writes only,
+// none twice, none foreign; everything covered by a completed Sync / effective Stop is there; and
+// whatever is there respects the order in which the bytes had to enter the stream (bytes may arrive
+// earlier than they must - an implementation may write through - never later and never out of order).
 
 const (
 	mW0 = iota // first instance (A / outer): Write
@@ -67,32 +69,105 @@ func (r *multiRun) body() {
 		ws[1] = &zapcore.BufferedWriteSyncer{WS: sinks[0], Size: 64, Clock: clk(), FlushInterval: time.Hour}
 		ws[0] = &zapcore.BufferedWriteSyncer{WS: ws[1], Size: 64, Clock: clk(), FlushInterval: time.Hour}
 	}
-	// reference
-	var held [2][]byte
-	var want [2][]byte  // expected sink content ("nested": only want[0], the one sink)
-	inited := [2]bool{} // a syncer starts its flush loop with the first Write it receives; Stop before that does nothing at all
-	flush := func(i int) {
-		if r.top == "two" {
-			want[i] = append(want[i], held[i]...)
-			held[i] = nil
-			return
-		}
-		if i == 0 { // outer hands its bytes to inner, then syncs inner
-			if len(held[0]) > 0 {
-				inited[1] = true
-			}
-			held[1] = append(held[1], held[0]...)
-			held[0] = nil
-		}
-		want[0] = append(want[0], held[1]...)
-		held[1] = nil
+	// reference: what MUST be in each sink (everything accepted before the last Sync / effective Stop that covers it)
+	// and the order constraints on whatever is there. Bytes may reach a sink earlier than they must (an
+	// implementation may write through), never later, never out of order, never twice, never in part.
+	type unit struct {
+		txt   string
+		inst  int // instance it was given to
+		step  int
+		flush int // step of the first Sync / effective Stop after it that covers it (-1: none yet)
 	}
-	content := func(s *sink) []byte {
+	var units []*unit
+	inited := [2]bool{}              // a syncer starts its flush loop with the first Write it receives; Stop before that does nothing at all
+	pendingTo := func(i, step int) { // Sync / Stop of instance i at this step covers ...
+		for _, u := range units {
+			if u.flush >= 0 {
+				continue
+			}
+			switch {
+			case r.top == "two" && u.inst == i:
+				u.flush = step
+			case r.top == "nested" && i == 1 && u.inst == 1:
+				u.flush = step
+			case r.top == "nested" && i == 0: // outer hands its bytes to inner, then syncs inner: covers both
+				u.flush = step
+			}
+		}
+	}
+	parse := func(s *sink) ([]string, string) {
 		var b []byte
 		for _, c := range s.calls {
 			b = append(b, c.data...)
 		}
-		return b
+		if len(b)%2 != 0 {
+			return nil, fmt.Sprintf("holds %q: a write arrived in part", b)
+		}
+		var out []string
+		for k := 0; k < len(b); k += 2 {
+			out = append(out, string(b[k:k+2]))
+		}
+		return out, ""
+	}
+	verify := func(step int, opName string) string {
+		for k, s := range sinks {
+			if s == nil {
+				continue
+			}
+			got, msg := parse(s)
+			if msg != "" {
+				return fmt.Sprintf("after step %d (%s) sink %d %s", step, opName, k, msg)
+			}
+			pos := map[string]int{}
+			for p, g := range got {
+				if _, dup := pos[g]; dup {
+					return fmt.Sprintf("after step %d (%s) sink %d holds %q: write %q delivered twice", step, opName, k, got, g)
+				}
+				pos[g] = p
+			}
+			known := map[string]*unit{}
+			for _, u := range units {
+				if r.top == "nested" || u.inst == k {
+					known[u.txt] = u
+				}
+			}
+			for _, g := range got {
+				if known[g] == nil {
+					return fmt.Sprintf("after step %d (%s) sink %d holds %q: %q was never given to a syncer writing to this sink", step, opName, k, got, g)
+				}
+			}
+			for _, u := range known {
+				if _, in := pos[u.txt]; !in && u.flush >= 0 {
+					return fmt.Sprintf("after step %d (%s) sink %d holds %q: write %q (step %d) is missing although the Sync/Stop of step %d covers it", step, opName, k, got, u.txt, u.step, u.flush)
+				}
+			}
+			// order: a precedes b whenever a had to be in the stream before b could get there
+			for _, a := range known {
+				for _, b := range known {
+					if a == b {
+						continue
+					}
+					mustPrecede := false
+					switch {
+					case a.inst == b.inst:
+						mustPrecede = a.step < b.step
+					case a.inst == 1 && b.inst == 0: // inner took a directly before outer even accepted b
+						mustPrecede = a.step < b.step
+					case a.inst == 0 && b.inst == 1: // outer's a was handed to inner (flush) before inner took b
+						mustPrecede = a.flush >= 0 && a.flush < b.step
+					}
+					if !mustPrecede {
+						continue
+					}
+					pa, ina := pos[a.txt]
+					pb, inb := pos[b.txt]
+					if inb && (!ina || pa > pb) {
+						return fmt.Sprintf("after step %d (%s) sink %d holds %q: write %q (given to %d at step %d) must come before %q (given to %d at step %d)", step, opName, k, got, a.txt, a.inst, a.step, b.txt, b.inst, b.step)
+					}
+				}
+			}
+		}
+		return ""
 	}
 	for step, o := range r.ops {
 		i := 0
@@ -108,31 +183,34 @@ func (r *multiRun) body() {
 				return
 			}
 			p[0], p[1] = 0xDB, 0xDB // the caller reuses its buffer
-			held[i] = append(held[i], byte('a'+step), byte('0'+i))
+			units = append(units, &unit{txt: string([]byte{byte('a' + step), byte('0' + i)}), inst: i, step: step, flush: -1})
 			inited[i] = true
 		case mS0, mS1:
 			if err := ws[i].Sync(); err != nil {
 				r.err = fmt.Sprintf("step %d: Sync returned %v", step, err)
 				return
 			}
-			flush(i)
+			pendingTo(i, step)
 		case mT0, mT1:
 			if err := ws[i].Stop(); err != nil {
 				r.err = fmt.Sprintf("step %d: Stop returned %v", step, err)
 				return
 			}
 			if inited[i] {
-				flush(i)
+				pendingTo(i, step)
 			}
 		}
-		for k, s := range sinks {
-			if s == nil {
-				continue
+		if r.top == "nested" && i == 0 && (o == mS0 || (o == mT0 && inited[0])) {
+			// outer's flush wrote into inner if it held anything: inner is in use from then on
+			for _, u := range units {
+				if u.inst == 0 {
+					inited[1] = true
+				}
 			}
-			if got := content(s); string(got) != string(want[k]) {
-				r.err = fmt.Sprintf("after step %d (%s) sink %d holds %q, the bytes accepted and flushed for it so far are %q (each write is a letter for its step and the digit of the instance it was given to)", step, multiNames[o], k, got, want[k])
-				return
-			}
+		}
+		if msg := verify(step, multiNames[o]); msg != "" {
+			r.err = msg + " (each write is a letter for its step and the digit of the instance it was given to)"
+			return
 		}
 	}
 	for i := range ws {
